@@ -27,6 +27,7 @@ META = dict(
 META["text"] += ' R5 includes CVR.from_vote (the one-contest record the RAIRE reader builds: votes == {contest_id: vote}, id and phantom flag passed on).'
 META["text"] += ' R2 requires the union to be a new dict (an in-place update would write into a dict other records may share).'
 META["text"] += ' R3 also: the flag stores are executed for every repeated record (not inside a branch of the tally-pool reconciliation).'
+META["text"] += ' R1 refutes grouping by itertools.groupby over the unsorted list (adjacent records only).'
 
 SPEC_TP = '''
 def spec(old, new):
